@@ -18,6 +18,10 @@ CLAIMED = {
  'C03': dict(
   text="Coq theorems over SEval/Operators: prefix not on a unary clause is simulated by the operator-level negation (same status, same state), on a binary clause it IS the operator-level negation (equal computations), double negation restores the clause, a single comparable value flips PASS<->FAIL, not > is <=, NotComparable stays FAIL under every polarity, not R is PASS iff R is not PASS. Tie: SEval vs implementation (status + record tree) on every generated clause group; relational monitor (c, not c, flip c, not flip c) on the implementation's statuses, exhaustive over operator x polarity x value-shape classes in the thorough tier. The pinned code violated the property for binary clauses (fix: 93b9493 in /repo); the model mirrors the repaired code.",
   note="tie = hook eval_dump + python glue; ordering operators have no operator-level negated spelling, for them the single-comparable inversion and SKIP preservation are monitored."),
+
+ 'C06': dict(
+  text="Coq theorems over Cli.v, a model of the exit-code folds (validate: the plain loop, the JSON/YAML/SARIF reporter, the JUnit reporter with update_exit_code, main's Err -> exit(-1); test: plain and structured single-file handlers, get_exit_code): exit 0 iff every rules file parsed and no pair FAILed or erred; all parsed, no error, some FAIL => 19; a parse error and nothing FAILs => 5; any error => neither 0 nor 19; test: 0 iff everything parses and every stated expectation matches, 7 if all parse and some mismatch, non-zero otherwise — for any number of rules/data files. The status-code constants are regenerated from commands/mod.rs and main.rs on every run (translator) and the theorem C06_codes pins them. Tie: the real binary is run on scenario directories in plain/-o json/-v/--structured json|yaml|sarif|junit x files/stdin/--payload and `test` in single-file and directory form x plain/json/yaml/junit; its exit status is compared with the model fold evaluated by Coq on the scenario's outcome matrix, and the monitor c06_*_obs (the statement) is evaluated by Coq on the observed status.",
+  note="tie = translator tools/gv/tables.py + CLI runs + hook eval_dump for the outcome matrix. The model mirrors fix e85c264 (test -o json exited 0 on an unparsable rules file). Directory-mode test folds are tied by correspondence only (no theorem yet)."),
 }
 
 NOT_CLAIMED = {}
